@@ -1,7 +1,7 @@
 (* Entry points of the correspondence check: one call per case record written by the
    harness.  Everything here is executable; nothing is proved in this file. *)
 From VJ Require Import Model.Str Model.Json Model.Ast Model.State Model.Util Model.Text
-  Model.Directive Model.Lower Model.Visitor Model.Types Spec.Plain Spec.Pragma Spec.OutViews.
+  Model.Directive Model.Lower Model.Visitor Model.Types Model.Options Spec.Plain Spec.Pragma Spec.OutViews.
 From VJ Require Import Gen.Tables.
 
 Definition jfield_d (k : String.string) (j : jv) : jv :=
@@ -120,6 +120,38 @@ Definition extras (c : jv) (model_out : jv) : list (str * str) :=
                             jv_eqb (enc (strip_hints real)) (jfield_d "output" alt)
                           else true)) ].
 
+(* the model of serde's Options deserialisation against what serde_json really did *)
+Definition regex_table (c : jv) : str -> bool :=
+  fun p => existsb (fun x => match x with
+                             | JArr [JStr q; JBool b] => str_eqb p q && b
+                             | _ => false
+                             end) (jarr (jfield_d "regex_valid" c)).
+
+Definition opt_corr (c : jv) : bool :=
+  let parsed := parse_options (regex_table c) (jfield_d "options_json" c) in
+  match jfield_d "status" c with
+  | JStr st =>
+      if sq "bad-options" st then match parsed with None => true | Some _ => false end
+      else
+        match parsed with
+        | None => false
+        | Some r =>
+            let h := jfield_d "options" c in
+            Bool.eqb (ro_transform_on r) (jbool_d (jfield_d "transformOn" h))
+            && Bool.eqb (ro_optimize r) (jbool_d (jfield_d "optimize" h))
+            && Bool.eqb (ro_merge_props r) (jbool_d (jfield_d "mergeProps" h))
+            && Bool.eqb (ro_object_slots r) (jbool_d (jfield_d "enableObjectSlots" h))
+            && Bool.eqb (ro_resolve_type r) (jbool_d (jfield_d "resolveType" h))
+            && match ro_pragma r, jstr (jfield_d "pragma" h) with
+               | Some a, Some b => str_eqb a b
+               | None, None => true
+               | _, _ => false
+               end
+            && strs_eqb (ro_patterns r) (jstrs (jfield_d "patterns" h))
+        end
+  | _ => true
+  end.
+
 Definition run_case (c : jv) : case_result :=
   let status := jfield_d "status" c in
   let input := jfield_d "input" c in
@@ -134,10 +166,11 @@ Definition run_case (c : jv) : case_result :=
            cr_same_out := if real_ok then jv_eqb mo (jfield_d "output" c) else true;
            cr_same_diag := strs_eqb (sort_strs (diags s)) (sort_strs (jstrs (jfield_d "diags" c)));
            cr_model_out := mo;
-           cr_model_diags := diags s; cr_extra := if real_ok then extras c mo else [] |}
+           cr_model_diags := diags s;
+           cr_extra := (s_ "optcorr", b2s (opt_corr c)) :: (if real_ok then extras c mo else []) |}
       else {| cr_relevant := false; cr_roundtrip := true; cr_same_status := true;
               cr_same_out := true; cr_same_diag := true; cr_model_out := JNull;
-              cr_model_diags := []; cr_extra := [] |}
+              cr_model_diags := []; cr_extra := [(s_ "optcorr", b2s (opt_corr c))] |}
   | _ => {| cr_relevant := false; cr_roundtrip := true; cr_same_status := true;
             cr_same_out := true; cr_same_diag := true; cr_model_out := JNull;
             cr_model_diags := []; cr_extra := [] |}
